@@ -18,7 +18,7 @@ from lib import Lib, Buf, FFT64, MASK_NONE, MASK_GENERIC
 LEVEL = "model_checking"
 
 
-def vmp_run(L, mod, n, mat, nrows, ncols, a, rs, entry, rng, a_pad=0, fill=0xFF, off=0):
+def vmp_run(L, mod, n, mat, nrows, ncols, a, rs, entry, rng, a_pad=0, fill=0xFF, off=0, a_fill=0x3C, reuse=False):
     """mat: list of nrows*ncols int vectors (len n); a: list of int vectors. Returns (list of rs int64 vectors, None)
     or (None, reason)."""
     a_size = len(a)
@@ -26,11 +26,15 @@ def vmp_run(L, mod, n, mat, nrows, ncols, a, rs, entry, rng, a_pad=0, fill=0xFF,
     M = Buf(8 * n * nrows * ncols, off=off, fill=0x3C)
     for k, v in enumerate(mat):
         M.i64[k * n:(k + 1) * n] = v
-    A = Buf(8 * ((a_size - 1) * a_sl + n) if a_size else 0, off=off, fill=0x3C)
+    A = Buf(8 * ((a_size - 1) * a_sl + n) if a_size else 0, off=off, fill=a_fill)      # a_fill: what lies between the limbs
     for k, v in enumerate(a):
         A.i64[k * a_sl:k * a_sl + n] = v
     pm = Buf(L.call("bytes_of_vmp_pmat", mod, nrows, ncols), off=off, fill=fill)
     t1 = Buf(L.call("vmp_prepare_contiguous_tmp_bytes", mod, nrows, ncols), off=off, fill=fill)
+    if reuse:                                          # the prepared-matrix buffer held another (dense) matrix before
+        J = Buf(8 * n * nrows * ncols, fill=0x3C)
+        J.i64[:] = [rng.randrange(-5, 6) or 1 for _ in range(n * nrows * ncols)]
+        L.call("vmp_prepare_contiguous", mod, pm, J, nrows, ncols, t1)
     m0, a0 = M.snapshot(), A.snapshot()
     L.call("vmp_prepare_contiguous", mod, pm, M, nrows, ncols, t1)
     if not (pm.canaries_ok() and t1.canaries_ok() and M.canaries_ok()):
@@ -114,7 +118,7 @@ def drive_b(rec, part, count):
     events = []
     mods = {}
     for it in range(count):
-        n = rng.choice([2, 4, 8, 8, 16])
+        n = rng.choice([2, 4, 8, 8, 16, 32])
         nrows, ncols = rng.randrange(1, 9), rng.randrange(1, 9)
         a_size, rs = rng.randrange(0, 11), rng.randrange(0, 11)
         mask = rng.choice([MASK_NONE, MASK_GENERIC])
@@ -123,11 +127,25 @@ def drive_b(rec, part, count):
             L.set_cpu_mask(MASK_NONE)
         mat = [[rng.randrange(-3, 4) for _ in range(n)] for _ in range(nrows * ncols)]
         a = [[rng.randrange(-3, 4) for _ in range(n)] for _ in range(a_size)]
+        family = rng.choice(["dense", "dense", "null-limbs", "null-entries", "unit"])
+        if family == "null-limbs":                     # whole limbs of the vector are the zero polynomial
+            a = [x if rng.random() < 0.5 else [0] * n for x in a]
+        elif family == "null-entries":                 # whole entries / rows / columns of the matrix are zero
+            zr, zc = rng.randrange(nrows), rng.randrange(ncols)
+            mat = [([0] * n if (rng.random() < 0.3 or k // ncols == zr or k % ncols == zc) else v) for k, v in enumerate(mat)]
+        elif family == "unit" and a_size:              # the vector selects one row
+            k = rng.randrange(a_size)
+            a = [([1] + [0] * (n - 1)) if i == k else [0] * n for i in range(a_size)]
         entry = rng.choice(["from_znx", "from_dft"])
-        label = "vmp %s N=%d mask=%d nrows=%d ncols=%d a_size=%d res_size=%d (dense)" % (entry, n, mask, nrows, ncols, a_size, rs)
+        a_pad = rng.choice([0, 3, n, n, 3 * n])        # strides N, N+3, 2N, 4N
+        a_fill = rng.choice([0x3C, 0x00])              # between the limbs: a pattern, or zeros
+        reuse = rng.random() < 0.4
+        label = "vmp %s N=%d mask=%d nrows=%d ncols=%d a_size=%d res_size=%d (%s, a_sl=%d, gap fill %#x%s)" % (
+            entry, n, mask, nrows, ncols, a_size, rs, family, n + a_pad, a_fill, ", prepared buffer reused" if reuse else "")
         if not rec.progress(label):
             continue
-        got, why = vmp_run(L, mods[(n, mask)], n, mat, nrows, ncols, a, rs, entry, rng, a_pad=rng.choice([0, 3]), off=rng.choice([0, 8, 16, 24]))
+        got, why = vmp_run(L, mods[(n, mask)], n, mat, nrows, ncols, a, rs, entry, rng, a_pad=a_pad, off=rng.choice([0, 8, 16, 24]),
+                           a_fill=a_fill, reuse=reuse)
         rec.case(("B", entry, mask, n, min(nrows, 4), min(ncols, 4), min(a_size, 5), min(rs, 5)), nontrivial=rs > 0)
         if got is None:
             rec.violation(label + ": " + why, {"N": n, "nrows": nrows, "ncols": ncols, "a_size": a_size, "res_size": rs})
